@@ -444,6 +444,8 @@ def scrape_counter():
     facts["struct_size_checked"] = sz_checked
     if sz_checked == sz_unchecked:
         problems.append("struct_verifier.rs: how the struct size is accumulated is not recognised")
+    lib = read("idlc/src/lib.rs")
+    facts["lib_runs_interface_verifier"] = bool(re.search(r"parse_to_mir\(&ast, &mut idl_store\);.*?interface_verifier::InterfaceVerifier::new\(&mir\)\.run_pass\(\);.*?Generator::generate\(&mir\)", lib, re.S))
     facts["counter_checked"] = checked
     facts["counter_limit"] = int(limit.group(1)) if (limit and checked) else 255
     if checked == unchecked:
@@ -453,7 +455,10 @@ def scrape_counter():
 
 def render_counter(facts):
     return ("(* GENERATED by lib/translate.py: arithmetic and limit of idlc_codegen::counts::Counter. *)\nRequire Import Base.\n\n"
-            "Definition counter_checked : bool := %s.\nDefinition counter_limit : N := %d.\nDefinition struct_size_checked : bool := %s.\n" % ("true" if facts["counter_checked"] else "false", facts["counter_limit"], "true" if facts["struct_size_checked"] else "false"))
+            "Definition counter_checked : bool := %s.\nDefinition counter_limit : N := %d.\nDefinition struct_size_checked : bool := %s.\n"
+            "(* idlc/src/lib.rs: does Language::generate run the InterfaceVerifier? *)\nDefinition lib_runs_interface_verifier : bool := %s.\n"
+            % ("true" if facts["counter_checked"] else "false", facts["counter_limit"], "true" if facts["struct_size_checked"] else "false",
+               "true" if facts["lib_runs_interface_verifier"] else "false"))
 
 
 def scrape_consts():
